@@ -373,7 +373,17 @@ DeferStepOK(s, i) ==
     [] i = 3 -> s.a = "script" /\ s.s.a \in {"defer", "once"}
     [] i \in {4, 5} -> s.a = "act" /\ s.r = 2
     [] OTHER -> s.a = "loop"
+(* directed family "ctpat": a persistent timer on a common-timeout queue is dispatched late (the clock jumps past its
+   deadline by less than the queue's duration), another event joins the same queue with a fresh clock reading, then
+   single-iteration loop calls: the persistent timer re-arms at deadline + duration and must fire then, ahead of the newcomer *)
+CtStepOK(s, i) ==
+  CASE i = 1 -> s.a = "initc" /\ s.q = 1 /\ s.t \in {2, 3}
+    [] i = 2 -> s.a = "addc" /\ s.e = 4 /\ s.q = 1
+    [] i = 3 -> s.a = "adv" /\ s.t \in {3, 4}
+    [] i = 4 -> s.a = "addc" /\ s.e \in {1, 3} /\ s.q = 1
+    [] OTHER -> s.a = "loop" /\ s.f = 1 /\ s.pol = "exact"
 PatGuard(op) == /\ (("heappat" \in Acts) => HeapStepOK(op, Len(hist) + 1))
+                /\ (("ctpat" \in Acts) => CtStepOK(op, Len(hist) + 1))
                 /\ (("deferpat" \in Acts) => DeferStepOK(op, Len(hist) + 1))
 Api ==
   /\ st.pc = "idle"
@@ -397,7 +407,7 @@ Env ==
         /\ "INS" \in st.ev[5].fl         \* raising with no handler installed would kill the driver
         /\ st' = [st EXCEPT !.sigpend = @ + 1]
         /\ hist' = Append(hist, [a |-> "raise", o |-> Obs(st', 0)])
-     \/ \E t \in DurSet : "adv" \in Acts /\ t > 0
+     \/ \E t \in DurSet : "adv" \in Acts /\ t > 0 /\ PatGuard([a |-> "adv", t |-> t])
           /\ st' = [st EXCEPT !.now = @ + t]
           /\ hist' = Append(hist, [a |-> "adv", t |-> t, o |-> Obs(st', 0)])
 
